@@ -2,6 +2,7 @@
 import random
 
 from ..harness import Scenario, gen_cfg, ref_alpha
+from ..probes import InjectedFault
 from ..explref import SageRef, Mismatch, compare
 
 SHARDS = {"quick": 1, "thorough": 16}
@@ -22,8 +23,13 @@ def run_config(run, cfg, seed, tag):
     ref = SageRef(sc.names, cfg["dyn"], ref_alpha(cfg), cfg["lbib"], sc.model, sc.loss)
     for t in range(cfg["steps"]):
         kw = sc.call_kwargs()
+        if seed % 6 == 0 and t >= 1 and sc.rnd.random() < 0.3:       # a callback fails somewhere in this call; the caller carries on
+            sc.clock.fail_at_next = sc.rnd.randrange(1, 3 + 2 * cfg["d"] * cfg["n_inner"])
         try:
             x, y, ret, log = sc.step(**kw)
+        except InjectedFault:
+            run.count("injected-faults-survived")       # a failed call changes nothing: the reference simply skips it
+            continue
         except Exception as ex:
             run.ok(kind="raised")
             run.violation("explain-raises", f"{tag} step {t}: explain_one raised {type(ex).__name__}: {ex} on a legal configuration",
@@ -133,5 +139,5 @@ def main(run):
         cfg = gen_cfg(rnd, "sage", exact=(i % 3 != 2))
         run_config(run, cfg, rnd.randrange(2 ** 31), f"s{run.shard[0]}c{i}")
         if i % 6 == 5 and cfg["imputer"] != "library-default" and cfg["storage"][0] != "library-default":
-            cfg2 = dict(cfg, vary_calls=False, warm_start=0)
+            cfg2 = dict(cfg, vary_calls=False, warm_start=0, out_type=("plain" if cfg.get("out_type") == "u8-loss" else cfg.get("out_type", "plain")))
             run_shared(run, cfg2, rnd.randrange(2 ** 31), f"s{run.shard[0]}c{i}shared")
